@@ -274,6 +274,8 @@ where
                     if let Err(e) = r {
                         warn!("Unable to send data back to caller. Channel error: {:?}", e);
                     }
+                    #[cfg(similari_verif)]
+                    crate::verif_hooks::point("store_distances_ok_sent", store_id as u64);
 
                     let r = channel_err.send(Results::DistanceErr(errors));
                     if let Err(e) = r {
